@@ -22,10 +22,34 @@ RULE = ("seven generated families against the real CategoricalClassification met
         "feature index and row count after the data changed); non-trivial = the case "
         "exercises its clause (adds a column / has a binding cut point / flips at least one cell / drops at least one row); "
         "distinct = distinct canonical cases")
-THEOREMS = ["C20_corr", "C20_corr_tan", "C20_corr_construction", "C20_dup", "C20_dup_info", "C20_dup_prefix_refuted", "C20_combo",
-            "C20_corr_info", "C20_info_exact", "C20_info_call", "C20_info_old_refuted", "C20_labels_mono", "C20_labels_count",
-            "C20_labels_prop", "C20_labels_class_sizes", "C20_labels_cumulative", "C20_labels_ndarray_note", "C20_noise_cat", "C20_noise_cat_check_sound",
-            "C20_noise_missing", "C20_noise_missing_check_sound", "C20_noise_cat_needs_standard_labels", "C20_downsample",
+THEOREMS = ["C20_corr",
+            "C20_corr_tan",
+            "C20_corr_construction",
+            "C20_dup",
+            "C20_dup_info",
+            "C20_dup_prefix_refuted",
+            "C20_combo",
+            "C20_corr_info",
+            "C20_info_exact",
+            "C20_info_call",
+            "C20_info_old_refuted",
+            "C20_labels_mono",
+            "C20_labels_count",
+            "C20_labels_prop",
+            "C20_labels_class_sizes_partial",
+            "C20_labels_cumulative_partial",
+            "C20_labels_proportion",
+            "C20_labels_proportion_partial",
+            "C20_labels_cumulative",
+            "C20_labels_ndarray_note",
+            "C20_noise_cat",
+            "C20_noise_cat_check_sound",
+            "C20_noise_cat_progress",
+            "C20_noise_missing",
+            "C20_noise_missing_check_sound",
+            "C20_noise_count",
+            "C20_noise_cat_needs_standard_labels",
+            "C20_downsample",
             "C20_downsample_check_sound"]
 REAL_THEOREMS = {"C20_corr", "C20_corr_tan", "C20_corr_construction"}
 
@@ -35,6 +59,9 @@ CFUN = {"linear": "CLinear", "nonlinear": "CNonlinear", "_xor": "CXor", "_and": 
 CFUN_INV = {v: k for k, v in CFUN.items()}
 DECISIONS = ("quarter_sum", "first_col", "neg_weighted")
 TOL_CORR = 1e-9
+# which reading of the two ambiguous places the repository is KNOWN to implement; None = decided per run by what reproduces
+# the cases (see choose_modes).  Pin (True / False) once the repairs notes/C20.md proposes are committed or rejected.
+PINNED_VARIANTS = {"cum": None, "honour": None}
 
 
 # ---------------------------------------------------------------------------------------------------------------
@@ -699,13 +726,35 @@ def build_expr(case, res):
         if d is None:
             return None, ctx
         ctx["robust"] = labels_robust(d, case["n"], case["p"])
-        dz = zl(scale_ints(d)) if how != "model" else "(decision_linear %s)" % zll(X)
+        L = 1
+        for v in d:
+            L = L * v.denominator // math.gcd(L, v.denominator)
+        dz = zl([int(v * L) for v in d]) if how != "model" else "(decision_linear %s)" % zll(X)
         sess = "enc_state (session %s %s [OLabels %s %s])" % (z(nr), z(nc), rel_coq(case["relation"]), z(case["n"]))
-        return "(%s, gen_labels %s %s %s, %s)" % (dz, dz, z(case["n"]), pspec_coq(case["p"]), sess), ctx
+        # np.percentile as an oracle: the recorded percent list and cut points (exact rationals of the doubles; cuts rescaled
+        # like the decision values)
+        pct = res.get("pct") or []
+        rec = None
+        if len(pct) == 1 and "q" in pct[0] and not any(isinstance(v, str) for v in pct[0]["q"] + pct[0]["cuts"]):
+            rec = ([frac(v) for v in pct[0]["q"]], [frac(v) * L for v in pct[0]["cuts"]])
+        ctx["recorded"] = rec is not None
+        if rec is None:
+            orac = "(BadOracle, BadOracle)"
+        else:
+            orac = "(gen_labels_o false %s %s %s %s %s, gen_labels_o true %s %s %s %s %s)" % (
+                dz, z(case["n"]), pspec_coq(case["p"]), qll(rec[0]), qll(rec[1]),
+                dz, z(case["n"]), pspec_coq(case["p"]), qll(rec[0]), qll(rec[1]))
+        return "(%s, gen_labels %s %s %s, %s, %s)" % (dz, dz, z(case["n"]), pspec_coq(case["p"]), orac, sess), ctx
     if kind in ("noise_cat", "noise_missing"):
         cols = transpose(X, nc)
         p = ql(frac(case["p"]))
-        ctx["float_ok"] = nflip_exact(nr, case["p"]) == nflip_float(nr, case["p"])
+        # the code's int(n * p) in doubles is an oracle answer: the size it asked np.random.choice for (if it got that far)
+        stream = res.get("stream", [])
+        kk = next((e[2] for e in stream if e and e[0] == "idx" and e[2] is not None), None)
+        ctx["k_recorded"] = kk is not None
+        if kk is None:
+            kk = nflip_float(nr, case["p"])         # same IEEE product as the code's; only used for the validator / raise cases
+        ctx["k"] = kk
         sentinel = None
         marker = case.get("marker")
         if kind == "noise_missing" and marker is None:
@@ -715,13 +764,14 @@ def build_expr(case, res):
         out = int_cells(res["X"], sentinel) if "X" in res else None
         ctx["out"] = out
         outc = zll(transpose(out, nc)) if out is not None else "[]"
-        st = stream_coq(res.get("stream", []))
+        st = stream_coq(stream)
         sess = "enc_state (session %s %s [ONoise %s %s])" % (z(nr), z(nc), vlib.blit(kind == "noise_missing"), p)
         if kind == "noise_cat":
-            return "(noise_cat %s %s %s %s %s, noise_cat_check %s %s %s %s, %s)" % (
-                zll(cols), zl(case["y"]), p, zl(res.get("inds", [])), st, zll(cols), z(nr), p, outc, sess), ctx
-        return "(noise_missing %s %s %s %s %s, noise_missing_check %s %s %s %s %s, %s)" % (
-            zll(cols), z(nr), p, z(marker), st, zll(cols), z(nr), p, z(marker), outc, sess), ctx
+            args = "%s %s %s %s %s %s" % (zll(cols), zl(case["y"]), p, z(kk), zl(res.get("inds", [])), st)
+            return "(noise_cat false %s, noise_cat true %s, noise_cat_check %s %s %s %s %s, %s)" % (
+                args, args, zll(cols), z(nr), p, z(kk), outc, sess), ctx
+        return "(noise_missing %s %s %s %s %s %s, noise_missing_check %s %s %s %s %s %s, %s)" % (
+            zll(cols), z(nr), p, z(kk), z(marker), st, zll(cols), z(nr), p, z(kk), z(marker), outc, sess), ctx
     if kind == "down":
         n = "None" if case.get("n") is None else "(Some %s)" % z(case["n"])
         Xd = int_cells(res["X"]) if "X" in res else None
@@ -876,8 +926,9 @@ def judge(case, res, val, ctx, stats):
                     rho, r)
         stats["corr_worst"] = max(stats.get("corr_worst", 0.0), worst)
         return out
+    modes = stats.get("_modes") or {"cum": False, "honour": False}
     if kind == "labels":
-        dm, ym, sess = val
+        dm, ym, orac, sess = val
         check_info(sess)
         d = ctx["d"]
         pct = res.get("pct") or []
@@ -897,26 +948,48 @@ def judge(case, res, val, ctx, stats):
                     if abs(float(v) - ref) > 1e-9 * max(1.0, abs(ref)):
                         bad("C20 labels: decision function", "nonlinear decision value = sum(k sin x + k cos x)", float(v), ref)
                         break
-        if not ctx.get("robust"):
-            stats["labels_skipped_float_tie"] = stats.get("labels_skipped_float_tie", 0) + 1
-            return out
         iy = int_cells([res["y"]])
         iy = iy[0] if iy else None
-        if ym is None:
-            bad("labels correspondence", "model rejects a call the implementation accepted", res.get("y"))
-        elif iy != list(ym[1]):
-            bad("C20_labels_mono / C20_labels_prop correspondence",
-                "labels are the monotone step function y_i = #{cut points < d_i} with linear-interpolated percentile cut points",
-                iy, list(ym[1]))
+        scalar_gt2 = case["p"].get("as", "scalar") == "scalar" and case["n"] > 2 and frac(case["p"]["v"]) != Fraction(1, 2)
+        # (a) np.percentile as an oracle: never skipped when the call was recorded
+        if ctx.get("recorded"):
+            o = orac[1] if modes["honour"] else orac[0]
+            stats["labels_oracle_checked"] = stats.get("labels_oracle_checked", 0) + 1
+            if o[0] == "Ok":
+                if iy != list(o[1]):
+                    bad("C20_labels_count correspondence", "y_i = #{recorded cut points < d_i} (strict comparison)", iy, list(o[1]))
+            elif o[0] == "BadOracle":
+                req = label_percents(case["n"], case["p"])
+                bad("C20_labels_class_sizes_partial: requested distribution / np.percentile contract",
+                    "the percents passed to np.percentile are the requested cumulative class proportions (within 1e-9) and every cut "
+                    "point lies in the bracket [s_a, s_a+1) of its virtual index",
+                    {"percents": [float(frac(v)) for v in pct[0]["q"]], "cuts": [float(frac(v)) for v in pct[0]["cuts"]], "labels": iy},
+                    {"requested_percents": None if req is None else [str(v) for v in req]})
+            else:
+                bad("labels correspondence", "model rejects a call the implementation accepted", res.get("y"))
+        elif not ctx.get("robust"):
+            stats["labels_unrecorded_unchecked"] = stats.get("labels_unrecorded_unchecked", 0) + 1
+        # (b) exact rational model of np.percentile: whenever the double computation is provably exact
+        if ctx.get("robust") and not (scalar_gt2 and modes["honour"]):
+            stats["labels_exact_model_checked"] = stats.get("labels_exact_model_checked", 0) + 1
+            if ym is None:
+                bad("labels correspondence", "model rejects a call the implementation accepted", res.get("y"))
+            elif iy != list(ym[1]):
+                bad("C20_labels_mono / C20_labels_prop correspondence",
+                    "labels are the monotone step function y_i = #{cut points < d_i} with linear-interpolated percentile cut points",
+                    iy, list(ym[1]))
+        else:
+            stats["labels_float_tie_oracle_only"] = stats.get("labels_float_tie_oracle_only", 0) + 1
         return out
     if kind in ("noise_cat", "noise_missing"):
-        model, chk, sess = val
+        if kind == "noise_cat":
+            m_old, m_new, chk, sess = val
+            model = m_new if modes["cum"] else m_old
+        else:
+            model, chk, sess = val
         check_info(sess)
         if case.get("probe"):
             stats.setdefault("probe", {})[case["probe"]] = "raises: " + res["raised"][:60] if "raised" in res else "accepted"
-            return out
-        if not ctx["float_ok"]:
-            stats["noise_skipped_float_tie"] = stats.get("noise_skipped_float_tie", 0) + 1
             return out
         thm = "C20_noise_cat" if kind == "noise_cat" else "C20_noise_missing"
         if "raised" in res:
@@ -925,6 +998,9 @@ def judge(case, res, val, ctx, stats):
             else:
                 stats["noise_modelled_crash"] = stats.get("noise_modelled_crash", 0) + 1
             return out
+        stats.setdefault("_judged", {})[kind] = stats.setdefault("_judged", {}).get(kind, 0) + 1
+        if nflip_exact(nr, case["p"]) != ctx["k"]:
+            stats["noise_double_rounding_k_differs_from_floor"] = stats.get("noise_double_rounding_k_differs_from_floor", 0) + 1
         io = ctx["out"]
         if io is None:
             bad(thm + " correspondence", "output cells are integers / the marker", res.get("X"))
@@ -933,16 +1009,20 @@ def judge(case, res, val, ctx, stats):
         if model[0] == "Ok" and [list(c) for c in model[1]] == ioc:
             stats[kind + "_replayed_exactly"] = stats.get(kind + "_replayed_exactly", 0) + 1
             return out
-        # replay differs: decide with the Coq validator on the implementation's output (its soundness theorem gives the
-        # property's clauses for this very output); a changed RNG call pattern alone is not a violation
+        # replay differs: the Coq validator decides on the implementation's output (its soundness theorem gives the
+        # property's clauses for this very output)
         if chk is not True:
-            clause = ("changed cells per feature <= floor(p n) and every value is one of that feature's own values" if kind == "noise_cat"
-                      else "exactly floor(p n) markers per feature (marker not already present) and every other cell unchanged")
-            bad(thm + " (Coq validator on the implementation's output)", clause, io, repr(model)[:1500])
+            clause = ("changed cells per feature <= k = int(n p) (checked against floor(p n)) and every value is one of that feature's own values"
+                      if kind == "noise_cat" else
+                      "exactly k = int(n p) (checked against floor(p n)) markers per feature (marker not already present) and every other cell unchanged")
+            bad(thm + " (Coq validator on the implementation's output)", clause, {"out": io, "k": ctx["k"]}, repr(model)[:1500])
         elif model[0] == "Raises":
-            stats["noise_model_crash_impl_ok"] = stats.get("noise_model_crash_impl_ok", 0) + 1
+            bad(thm + " correspondence", "the model (transcription of the code) predicts that the call raises, the implementation returned",
+                io, "Raises")
         else:
-            stats[kind + "_validator_fallback"] = stats.get(kind + "_validator_fallback", 0) + 1
+            stream = res.get("stream", [])
+            first = not stream or not (stream[0][0] == "idx" and stream[0][1] == nr and stream[0][3] is False)
+            stats.setdefault("_fallback", []).append((kind, {k_: v_ for k_, v_ in case.items() if not k_.startswith("_")}, first))
         return out
     if kind == "down":
         model, chk, sess = val
@@ -953,6 +1033,7 @@ def judge(case, res, val, ctx, stats):
                 stats["down_modelled_raise"] = stats.get("down_modelled_raise", 0) + 1
             return out
         check_info(sess)
+        stats.setdefault("_judged", {})["down"] = stats.setdefault("_judged", {}).get("down", 0) + 1
         Xd, yd = ctx["out"]
         if model[0] == "Ok" and [list(r) for r in model[1][0]] == Xd and list(model[1][1]) == yd:
             stats["down_replayed_exactly"] = stats.get("down_replayed_exactly", 0) + 1
@@ -960,8 +1041,12 @@ def judge(case, res, val, ctx, stats):
         if chk is not True:
             bad("C20_downsample (Coq validator on the implementation's output)",
                 "exactly n rows of each class, each a row of that class", {"X": Xd, "y": yd}, repr(model)[:1500])
+        elif model[0] == "Raises":
+            bad("C20_downsample correspondence", "the model predicts that the call raises, the implementation returned", {"X": Xd, "y": yd}, "Raises")
         else:
-            stats["down_validator_fallback"] = stats.get("down_validator_fallback", 0) + 1
+            stream = res.get("stream", [])
+            first = not stream or stream[0][0] != "sample"
+            stats.setdefault("_fallback", []).append(("down", {k_: v_ for k_, v_ in case.items() if not k_.startswith("_")}, first))
         return out
     raise ValueError(kind)
 
@@ -1059,6 +1144,7 @@ def evaluate(cases, stats):
             slots.append((i, None))
     vals = vlib.coq_eval("C20", HEADER, exprs, shard=40) if exprs else []
     vmap = dict(zip(slots, vals))
+    stats["_modes"] = choose_modes(cases, res, vmap, effs, stats)
     out = []
     for i, (c, r) in enumerate(zip(cases, res)):
         if c["kind"] == "history":
@@ -1066,6 +1152,48 @@ def evaluate(cases, stats):
         else:
             out.append(judge(c, r, vmap.get((i, None)), ctxs.get((i, None)), stats))
     return out, res
+
+
+def choose_modes(cases, res, vmap, effs, stats):
+    """Two places of the code exist in two readings (Derived.v): the per-label slices of categorical noise (as first read /
+    cumulative offsets) and a scalar p with n > 2 in generate_labels (ignored / honoured).  ONE reading must explain the whole
+    run: the variant that reproduces more cases is taken (ties: the code as first read) and every case is judged under it."""
+    votes = {"cum": [0, 0], "honour": [0, 0]}
+
+    def vote(c, r, v):
+        if v is None or not r.get("ok"):
+            return
+        if c["kind"] == "noise_cat" and not c.get("probe"):
+            nc = len(c["X"][0]) if c["X"] else 0
+            for b in (0, 1):
+                m = v[b]
+                if "raised" in r:
+                    okb = m[0] == "Raises"
+                else:
+                    io = int_cells(r["X"]) if "X" in r else None
+                    okb = io is not None and m[0] == "Ok" and [list(col) for col in m[1]] == transpose(io, nc)
+                votes["cum"][b] += 1 if okb else 0
+        if c["kind"] == "labels" and c["p"].get("as", "scalar") == "scalar" and c["n"] > 2 and frac(c["p"]["v"]) != Fraction(1, 2):
+            iy = int_cells([r["y"]])
+            iy = iy[0] if iy else None
+            for b in (0, 1):
+                o = v[2][b]
+                votes["honour"][b] += 1 if (o[0] == "Ok" and list(o[1]) == iy) else 0
+
+    for i, (c, r) in enumerate(zip(cases, res)):
+        if c["kind"] == "history":
+            if r.get("ok"):
+                for k, sr in enumerate(r["steps"]):
+                    eff = effs.get((i, k))
+                    if eff is not None:
+                        vote(eff, sr, vmap.get((i, k)))
+        else:
+            vote(c, r, vmap.get((i, None)))
+    pinned = PINNED_VARIANTS
+    modes = {d: (pinned[d] if pinned.get(d) is not None else votes[d][1] > votes[d][0]) for d in votes}
+    stats["code_variant"] = {"noise_slices": "cumulative offsets" if modes["cum"] else "as first read (previous count, last row dropped)",
+                             "labels_scalar_p_n_gt_2": "honoured" if modes["honour"] else "ignored (uniform)", "votes": votes}
+    return modes
 
 
 def judge_history(i, case, res, vmap, ctxs, effs, stats):
@@ -1219,13 +1347,31 @@ def check(run, replay):
             c, f = shrink(c, f, stats)
         for x in f[:3]:
             run.violation("counterexample", x[0], case=c, impl=x[2], model=x[3], clause=x[1])
-    fb = {k: v for k, v in stats.items() if k.endswith("_validator_fallback")}
-    run.oblige("trace-replay or Coq validator accepts every noise / down-sampling output", True,
-               "all outputs reproduced exactly by the model from the recorded answers" if not fb else
-               "model replay differed (library call pattern changed?) on %s; the Coq validators accepted those outputs" % fb)
-    if fb:
-        run.notes.append("trace replay no longer reproduces the implementation on %s; decided by the Coq validators "
-                         "(C20_*_check_sound) instead" % fb)
+    # replay mismatches that the Coq validators accepted: quiet ONLY for a global change of the library call pattern (every
+    # judged case of the family mismatches at its first RNG call); otherwise the correspondence is broken without a failing input
+    fb = {}
+    for kind, c, first in stats.get("_fallback", []):
+        fb.setdefault(kind, []).append((c, first))
+    judged = stats.get("_judged", {})
+    quiet, loud = {}, {}
+    for kind, lst in fb.items():
+        if len(lst) == judged.get(kind, 0) and all(first for _, first in lst):
+            quiet[kind] = len(lst)
+        else:
+            loud[kind] = lst
+    run.oblige("trace replay reproduces every noise / down-sampling output (or the call pattern changed globally and the Coq validators accept all)",
+               not loud, "" if not loud else "; ".join("%s: %d of %d cases not reproduced" % (k, len(v), judged.get(k, 0)) for k, v in loud.items()))
+    for kind, lst in loud.items():
+        run.violation("broken-obligation", "C20 trace-replay correspondence (%s): %d of %d cases are not reproduced by the model although the "
+                      "Coq validator accepts their outputs" % (kind, len(lst), judged.get(kind, 0)),
+                      case=lst[0][0], clause="model = implementation on the recorded answers (first cases: %s)" %
+                      json.dumps([c for c, _ in lst[:3]])[:1500], found_input=False)
+    if quiet:
+        run.notes.append("library call pattern changed globally for %s: every case mismatches at its first RNG call; decided by the Coq "
+                         "validators (C20_*_check_sound), all accepted" % quiet)
+    stats["validator_fallback"] = {"quiet": quiet, "loud": {k: len(v) for k, v in loud.items()}}
+    for k in ("_fallback", "_judged", "_modes"):
+        stats.pop(k, None)
     sizes = {}
     for c in cases:
         nrow = case_rows(c)
